@@ -18,14 +18,35 @@ LEAN = dict(
     props="LeaspyVerif.Props.C05",
     driver="drivers/C05.lean",
     harness="c05_saem.py",
-    extra_modules=["LeaspyVerif.Model.Saem"],
+    extra_modules=["LeaspyVerif.Model.Saem", "LeaspyVerif.Lemmas.Saem"],
     theorems=["stats_memoryless", "stats_convex", "run_flags", "run_length", "stats_forget_burnin",
-              "stats_in_hull", "step_size_in_unit", "robbins_monro_iff"],
+              "stats_in_hull", "step_size_in_unit", "robbins_monro_iff",
+              # unrolled form and weights
+              "stepStatsW_eq", "stats_unrolled", "weight_closed_form", "weight_burnin_zero", "weight_future_zero",
+              "weight_in_unit", "weight_sum_one",
+              # step sizes
+              "power_one_running_mean", "power_one_weights_uniform", "step_one_no_memory", "constant_step_one_run",
+              "reset_is_unit_step", "step_size_first_is_one", "step_size_power_zero", "step_size_power_one",
+              "step_size_strict_anti", "step_size_tendsto_zero", "step_size_eq_inv",
+              # dictionaries of tensors
+              "convexT_entrywise", "convexT_error_iff", "convexT_broadcast_new", "convexT_broadcast_old",
+              "mstepD_keys", "mstepD_keywise", "mstepD_lookup", "mstepD_ok_iff", "mstepD_error_iff",
+              "mstepD_ignores_other_keys", "stepD_memoryless", "memorylessZ_natCast", "runD_attributeError_iff",
+              "runD_negative_no_maximisation", "runD_calls", "runD_entrywise",
+              # constructor
+              "truncZ_of_nonneg", "truncZ_neg", "truncZ_of_nonpos", "truncZ_bounds", "truncZ_mono", "truncZ_intCast",
+              "burn_length_from_fraction", "count_has_priority", "warns_iff", "ctor_accepts_iff", "ctor_algoInput_iff",
+              "ctor_raw_error_iff", "negative_burn_in_accepted_counterexample", "burn_length_nonneg",
+              "negative_burn_in_refused", "ctor_repair_conservative", "accepted_never_attributeError"],
     trusted_extra=[
         "step size j**(-power): Lean Float.pow and CPython float pow both call C pow (compared bitwise on float64 stub statistics)",
-        "theorems are over an ordered field / the reals; the executable instance is IEEE double",
+        "theorems are over an ordered field / the reals; the executable instances are IEEE double and float32 (Lean Float / Float32, C casts)",
+        "exact value of a double read from its bits (Model/Saem.lean: dblOfFloat) for int(frac * n_iter)",
     ],
-    assumptions=["statistics of the stub model are float64 scalars/vectors; real-fit statistics are float32 tensors compared with a 2e-6 relative envelope"],
+    assumptions=["statistics are 1-D tensors of one dtype per run (float64 or float32) in the stub runs; n-D tensors of real fits "
+                 "are compared flattened (equal shapes at every iteration); WeightedTensor statistics are compared on `.value` "
+                 "(the mask is the data's, identical at every iteration)",
+                 "n_iter, the explicit count are Python ints; the fraction a Python float (or small int); |n_iter| < 2**53"],
 )
 
 FRACS = [0.0, 0.1, 0.2, 0.29, 0.3, 0.4, 0.5, 0.6, 0.7, 0.8, 0.9, 1.0]
@@ -266,13 +287,22 @@ def real_fit_case(env, chk, model_name, n_iter, count, frac, power, seed):
     def tens(v):
         return (v.weighted_value if isinstance(v, WeightedTensor) else v).detach().clone().double()
 
+    raw_s, raw_S = [], []
+
+    def raw(d):
+        # the tensor the arithmetic of `_maximization_step` acts on (`.value` of a WeightedTensor), flattened, exact
+        return [(k, (v.value if isinstance(v, WeightedTensor) else v).detach().clone(), str((v.value if isinstance(v, WeightedTensor) else v).dtype))
+                for k, v in d.items()]
+
     def css(state):
         s = orig_css(state)
         rec_s.append({k: tens(v) for k, v in s.items()})
+        raw_s.append(raw(s))
         return s
 
     def up(state, ss, *, burn_in):
         rec_S.append(({k: tens(v) for k, v in ss.items()}, bool(burn_in)))
+        raw_S.append(raw(ss))
         return orig_up(state, ss, burn_in=burn_in)
 
     model.compute_sufficient_statistics = css
@@ -333,6 +363,23 @@ def real_fit_case(env, chk, model_name, n_iter, count, frac, power, seed):
                 if abs(a - b) > 2e-6 * scale * (1 + max(0, k - nb)):
                     chk.disagree(case, a, b, f"statistics '{key}' at iteration {k+1} (float32 envelope)")
                     break
+        # every entry of every key, bitwise, in the dtype and operation order of the code (float32 tensors, double step)
+        dts = {dt for d in raw_s + raw_S for _, _, dt in d}
+        finite = all(bool(torch.isfinite(v).all()) for d in raw_s for _, v, _ in d)
+        if dts == {"torch.float32"} and finite:
+            seq = [[(k, v.double().reshape(-1).tolist()) for k, v, _ in d] for d in raw_s]
+            resp = chk.model([dict_line(nb, float(power), "f32", seq)])[0]
+            impl = dict_impl_string({"calls": [([(k, v.double().reshape(-1).tolist(), None, None) for k, v, _ in d], fl)
+                                               for d, (_, fl) in zip(raw_S, rec_S)], "err": "none"})
+            if impl != resp:
+                a, b = impl.split(" ")[0][2:].split(";"), resp.split(" ")[0][2:].split(";")
+                where = next((i + 1 for i, (x, y) in enumerate(zip(a, b)) if x != y), "?")
+                chk.disagree(case, impl[:300], resp[:300], f"real fit: statistics handed to update_parameters, bitwise float32, first difference at iteration {where}")
+                chk.impl_failure(case, f"real fit: at iteration {where} (nb={nb}, power={power}) the float32 statistics handed to the maximisation "
+                                       "are not those of the schedule (memory-less copy, then kept*(1-e)+e*new with the double step cast to float32)")
+            chk.tag("real_fit_exact", "compared")
+        else:
+            chk.tag("real_fit_exact", "skipped: " + ("non-finite" if not finite else ",".join(sorted(dts))))
     for f in fails[:3]:
         chk.impl_failure(case, f)
     chk.case(("fit", model_name, n_iter, count, frac, power, seed), nontrivial=(nb + 2 <= n_iter),
@@ -371,12 +418,462 @@ def ctor_grid(chk, env):
     chk.extra_cov["ctor_grid"] = f"every (n_iter <= {N}, explicit count <= n_iter) + sampled counts for n_iter in 1000, 5000, 10000"
 
 
+# ------------------------------------------------------------------ constructor, whole accepted domain
+F27 = "F27"
+SPECIAL_FRACS = [float("nan"), float("inf"), float("-inf"), -0.55, -0.05, -1.0, 1.05, 1.55, 2.0, 5e-324, 1e-300, 1e300,
+                 0.29, 0.57, 0.58, 0.7, 1 / 3, 2 / 3, 0.999999999999999, 1.0000000000000002]
+
+
+def ctor_outcome(env, n_iter, count, frac, power):
+    """Real constructor: ('ok', nb, warned) or (error class, None, None)."""
+    torch, AlgorithmSettings, algorithm_factory, LAIE = env
+    kws = dict(n_iter=n_iter, seed=0, progress_bar=False, burn_in_step_power=power, n_burn_in_iter_frac=frac)
+    if count is not None:
+        kws["n_burn_in_iter"] = count
+    try:
+        with warnings.catch_warnings(record=True) as w:
+            warnings.simplefilter("always")
+            algo = algorithm_factory(AlgorithmSettings("mcmc_saem", **kws))
+        nb = algo.algo_parameters["n_burn_in_iter"]
+        if type(nb) is not int:
+            return (f"err:other:nb-of-type-{type(nb).__name__}", None, None)
+        return ("ok", nb, any(issubclass(x.category, FutureWarning) for x in w))
+    except Exception as e:  # noqa
+        return (err_class(e, LAIE), None, None)
+
+
+def ctor_line(n_iter, count, frac, power):
+    return (f"ctor niter={n_iter} count={'none' if count is None else count} "
+            f"frac={'none' if frac is None else fmt_float(float(frac))} p={fmt_float(float(power))}")
+
+
+def ctor_case_json(c):
+    n_iter, count, frac, power = c
+    return {"kind": "ctorx", "n_iter": n_iter, "n_burn_in_iter": count,
+            "n_burn_in_iter_frac": (repr(frac) if isinstance(frac, float) and (math.isnan(frac) or math.isinf(frac)) else frac),
+            "burn_in_step_power": (repr(power) if isinstance(power, float) and (math.isnan(power) or math.isinf(power)) else power)}
+
+
+def _unrepr(x):
+    return float(x) if isinstance(x, str) else x
+
+
+def ctor_predicate(c, out):
+    """Property-level expectations on the constructor, independent of the Lean model."""
+    from fractions import Fraction
+    n_iter, count, frac, power = c
+    kind, nb, warned = out
+    fails = []
+    f_ok = frac is None or (not math.isnan(frac) and not math.isinf(frac))
+    power_ok = 0.5 < power <= 1
+    if count is None and frac is None:
+        if kind != "err:algo":
+            fails.append(f"neither count nor fraction given, not refused with an algorithm-input error: {kind}")
+        return fails, False
+    if count is None and not f_ok:
+        if kind == "ok":
+            fails.append(f"fraction {frac!r} accepted with length {nb}")
+        return fails, False
+    if not power_ok:
+        if kind != "err:algo":
+            fails.append(f"step power {power!r} outside (0.5,1] not refused with an algorithm-input error: {kind}")
+        return fails, False
+    # a length can be derived and the power is fine
+    want = count if count is not None else None
+    if kind == "ok" and nb < 0:
+        fails.append(f"configuration accepted with a negative memory-less length n_burn_in_iter={nb} "
+                     "(the first iteration would abort with AttributeError; refused since the fix of F27)")
+        return fails, False
+    if count is not None:
+        surely_neg, maybe_neg = count < 0, count < 0
+    else:
+        x = Fraction(frac) * n_iter
+        lo, hi = sorted((x * (1 - Fraction(1, 2 ** 52)), x * (1 + Fraction(1, 2 ** 52))))
+        surely_neg, maybe_neg = math.trunc(hi) <= -1, math.trunc(lo) <= -1
+    if surely_neg:
+        if kind != "err:algo":
+            fails.append(f"negative memory-less length not refused with an algorithm-input error: {kind}")
+        return fails, False
+    if maybe_neg and kind == "err:algo":
+        return fails, False          # the double product rounds to <= -1: decided by the exact model comparison
+    if kind != "ok":
+        fails.append(f"valid configuration refused: {kind}")
+        return fails, False
+    if want is not None:
+        if nb != want:
+            fails.append(f"explicit count {want} became {nb}")
+    else:
+        exact = Fraction(frac) * n_iter
+        # int() of the product, the product being rounded once (relative 2**-52 covers half an ulp and subnormals → 0)
+        lo, hi = sorted((exact * (1 - Fraction(1, 2 ** 52)), exact * (1 + Fraction(1, 2 ** 52))))
+        if not (math.trunc(lo) <= nb <= math.trunc(hi)):      # int() is monotone
+            fails.append(f"memory-less length {nb} is not int(fraction * n_iter) for fraction {frac!r} of {n_iter} iterations "
+                         f"(exact product {float(exact)!r}, int = {math.trunc(exact)})")
+        if 0 <= frac <= 1 and n_iter >= 0 and not (0 <= nb <= n_iter):
+            fails.append(f"fraction {frac!r} in [0,1] of {n_iter} iterations gave a length {nb} outside [0, n_iter]")
+    if warned != (count is not None and frac is not None):
+        fails.append(f"FutureWarning emitted={warned} with count={count} fraction={frac!r}")
+    return fails, False
+
+
+def ctor_cases(chk):
+    rng = chk.rng
+    cases = []
+    thorough = chk.tier == "thorough"
+    # exhaustive small grid: n_iter -3..N, fraction k/20 for k=-6..26 (every multiple of 0.05 incl. negative and > 1)
+    N = 60 if thorough else 24
+    for n in range(-3, N + 1):
+        for k in range(-6, 27):
+            cases.append((n, None, k / 20, 0.8))
+        for f in SPECIAL_FRACS:
+            cases.append((n, None, f, 0.8))
+    # which of count / fraction wins, deprecation warning, integer-typed fraction, negative counts, order of the refusals
+    for n in (0, 1, 7, 10):
+        for count in (None, -3, -1, 0, 1, 5, 10, 12):
+            for frac in (None, 0.5, float("nan"), float("inf"), -0.5, 1, 0, 2, True):
+                for p in (0.8, 0.5, float("nan"), 1, 2.0):
+                    cases.append((n, count, frac, p))
+    # random: large n_iter, 53-bit fractions
+    for _ in range(3000 if thorough else 400):
+        n = rng.choice([rng.randrange(1, 200), rng.randrange(1, 10 ** 7), rng.randrange(1, 10 ** 4)])
+        r = rng.random()
+        if r < 0.6:
+            f = rng.random()
+        elif r < 0.8:
+            f = rng.randrange(0, n + 1) / n            # k/n: product one ulp around an integer
+        elif r < 0.9:
+            f = rng.uniform(-1.5, 2.5)
+        else:
+            f = rng.randrange(0, 101) / 100
+        cases.append((n, None, f, rng.choice([0.8, 0.51, 1.0, 0.8, 0.8, 0.5, 1.5])))
+    return cases
+
+
+def ctor_check(chk, env, cases):
+    outs = [ctor_outcome(env, *c) for c in cases]
+    resp = chk.model([ctor_line(*c) for c in cases])
+    by_n = {}
+    for c, out, m in zip(cases, outs, resp):
+        n_iter, count, frac, power = c
+        cj = ctor_case_json(c)
+        fails, _ = ctor_predicate(c, out)
+        for f in fails:
+            chk.impl_failure(cj, f)
+        impl = (f"nb={out[1]} warn={1 if out[2] else 0}" if out[0] == "ok" else out[0])
+        if impl != m:
+            chk.disagree(cj, impl, m, "constructor outcome / length of the memory-less phase / deprecation warning")
+        if out[0] == "ok" and count is None and power == 0.8 and n_iter >= 0:
+            by_n.setdefault(n_iter, []).append((frac, out[1]))
+        chk.case(("ctorx", n_iter, count, repr(frac), repr(power)), nontrivial=(out[0] != "ok" or count is None),
+                 sample=cj if (len(chk.samples) < 5 and frac is not None and frac < 0) else None,
+                 tags={"kind": "ctor", "ctor": out[0]})
+    # monotone in the fraction (same n_iter >= 0)
+    for n, lst in by_n.items():
+        lst.sort()
+        for (f1, b1), (f2, b2) in zip(lst, lst[1:]):
+            if b2 < b1:
+                chk.impl_failure({"kind": "ctorx", "n_iter": n, "n_burn_in_iter": None, "n_burn_in_iter_frac": f2,
+                                  "burn_in_step_power": 0.8, "compare_with_fraction": f1},
+                                 f"memory-less length not monotone in the fraction: {f1!r}->{b1} but {f2!r}->{b2} (n_iter={n})")
+                break
+
+
+# ------------------------------------------------------------------ unrolled weights
+def weights_case(chk, env, n, nb, power):
+    """Statistics = unit vectors: by linearity the statistic used at iteration k is the row of weights w_{k,1..n}."""
+    seq = [[1.0 if j == k else 0.0 for j in range(n)] for k in range(n)]
+    res = run_stub(env, n, nb, None, power, seq)
+    cj = {"kind": "weights", "n_iter": n, "n_burn_in_iter": nb, "burn_in_step_power": power}
+    if res["ctor"] != "ok" or res.get("run") != "ok" or len(res["calls"]) != n:
+        chk.impl_failure(cj, f"valid configuration did not run: {res['ctor']} / {res.get('run')}")
+        return None
+    rows = [call[0] for call in res["calls"]]
+    for k in range(1, n + 1):
+        row = rows[k - 1]
+        bad = None
+        if any(w < 0 or w > 1 for w in row):
+            bad = "a weight outside [0,1]"
+        elif abs(sum(row) - 1) > 1e-12:
+            bad = f"weights sum to {sum(row)!r}"
+        elif any(row[j - 1] != 0 for j in range(k + 1, n + 1)):
+            bad = "a later iteration has a non-zero weight"
+        elif k >= nb + 1 and any(row[j - 1] != 0 for j in range(1, min(nb, n) + 1)):
+            bad = "an iteration of the memory-less phase keeps a non-zero weight after the reset"
+        elif k <= nb + 1 and row[k - 1] != 1:
+            bad = "memory-less iteration: weight of the current statistics is not 1"
+        elif power == 1.0 and k >= nb + 1 and any(abs(row[j - 1] - 1 / (k - nb)) > 1e-13 for j in range(nb + 1, k + 1)):
+            bad = "power 1: weights are not the uniform 1/(k-nb) (running mean)"
+        elif k >= nb + 2 and power > 0:
+            e = [0, 0] + [float(j) ** (-power) for j in range(2, n + 2)]
+            if not all(e[j] > e[j + 1] for j in range(2, n)) or abs(row[k - 1] - e[k - nb]) > 1e-15:
+                bad = "weight of the current statistics is not the step size (k-nb)^-power"
+        if bad:
+            chk.impl_failure(cj, f"iteration {k}: {bad}; weights {row}")
+            break
+    return cj, rows
+
+
+def weights_check(chk, env):
+    rng = chk.rng
+    confs = []
+    N = 14 if chk.tier == "thorough" else 9
+    for n in range(1, N + 1):
+        for nb in range(0, n + 1):
+            for p in (0.51, 0.8, 1.0):
+                confs.append((n, nb, p))
+    for _ in range(40 if chk.tier == "thorough" else 10):
+        n = rng.randrange(10, 45)
+        confs.append((n, rng.randrange(0, n), rng.choice([0.51, 0.6, 0.75, 0.8, 0.9, 1.0])))
+    keep, lines = [], []
+    for n, nb, p in confs:
+        r = weights_case(chk, env, n, nb, p)
+        chk.case(("weights", n, nb, p), nontrivial=(nb + 2 <= n), tags={"kind": "weights"})
+        if r is not None:
+            keep.append(r)
+            lines.append(f"weights nb={nb} power={fmt_float(p)} n={n}")
+    out = chk.model(lines)
+    for (cj, rows), resp in zip(keep, out):
+        impl = ";".join(fmt_list([fmt_float(x) for x in row]) for row in rows)
+        if impl != resp:
+            chk.disagree(cj, impl, resp, "unrolled weights (bitwise float64, unit-vector statistics through the real algorithm object)")
+
+
+# ------------------------------------------------------------------ dictionaries of tensors (keys, shapes, dtype)
+class DictStub:
+    def __init__(self, torch, seq, dtype):
+        self.torch, self.seq, self.i, self.calls = torch, seq, 0, []
+        self.dtype = torch.float32 if dtype == "f32" else torch.float64
+
+    def compute_sufficient_statistics(self, state):
+        d = self.seq[self.i]
+        self.i += 1
+        return {k: self.torch.tensor(v, dtype=self.dtype) for k, v in d}
+
+    def update_parameters(self, state, stats, *, burn_in):
+        self.calls.append(([(k, v.detach().clone().double().reshape(-1).tolist(), tuple(v.shape), str(v.dtype)) for k, v in stats.items()],
+                           bool(burn_in)))
+
+
+def run_dict(env, nb, power, dtype, seq, assign=False):
+    """seq: list (one per iteration) of lists of (key, values).
+    assign: the count is written into `algo_parameters` after construction (the only way to run a negative one)."""
+    torch, AlgorithmSettings, algorithm_factory, LAIE = env
+    n = len(seq)
+    try:
+        algo = build_algo(AlgorithmSettings, algorithm_factory, n, 0 if assign else nb, None, power)
+        if assign:
+            algo.algo_parameters["n_burn_in_iter"] = nb
+    except Exception as e:  # noqa
+        return {"ctor": err_class(e, LAIE)}
+    m = DictStub(torch, seq, dtype)
+    err = "none"
+    try:
+        for k in range(1, n + 1):
+            algo.current_iteration = k
+            algo._maximization_step(m, None)
+    except Exception as e:  # noqa
+        err = type(e).__name__
+    return {"ctor": "ok", "calls": m.calls, "err": err}
+
+
+def fmt_dict(d):
+    if not d:
+        return "~"
+    return "|".join(f"{k}:{fmt_list([fmt_float(x) for x in v])}" for k, v in d)
+
+
+def dict_line(nb, power, dtype, seq):
+    return f"rund nb={nb} power={fmt_float(power)} dtype={dtype} s={';'.join(fmt_dict(d) for d in seq) if seq else '_'}"
+
+
+def dict_impl_string(res):
+    calls = res["calls"]
+    S = ";".join(fmt_dict([(k, v) for k, v, _, _ in d]) for d, _ in calls) if calls else "_"
+    return f"S={S} burn={fmt_list(['1' if b else '0' for _, b in calls])} err={res['err']}"
+
+
+def dict_case_json(nb, power, dtype, seq):
+    return {"kind": "dict", "n_burn_in_iter": nb, "burn_in_step_power": power, "dtype": dtype,
+            "stats": [[[k, v] for k, v in d] for d in seq]}
+
+
+def dict_predicate(nb, power, dtype, seq, res):
+    """Key-wise / entry-wise convex update, judged on what the real `_maximization_step` handed over (numpy reference
+    with a dtype envelope; independent of the Lean model). Returns (failures, f27)."""
+    import numpy as np
+    fails = []
+    calls, err = res["calls"], res["err"]
+    n = len(seq)
+    if nb < 0 and n >= 1:
+        if err == "AttributeError" and not calls:
+            return fails, True
+        fails.append(f"negative memory-less length {nb}: expected the known abort, got err={err} after {len(calls)} maximisations")
+        return fails, False
+    tol = 4e-6 if dtype == "f32" else 1e-13
+    prev = None
+    for k in range(1, n + 1):
+        s = seq[k - 1]
+        if k - 1 >= len(calls):
+            # aborted at iteration k: legitimate only if a kept key is missing or a shape cannot be broadcast
+            snew = dict(s)
+            missing = [key for key, _ in prev if key not in snew] if prev is not None else []
+            shapes = [(len(v), len(snew[key])) for key, v in prev if key in snew] if prev is not None else []
+            incompatible = [p for p in shapes if p[0] != p[1] and 1 not in p]
+            if k <= nb + 1 or (not missing and not incompatible):
+                fails.append(f"run aborted at iteration {k} with {err} although every kept key is present with a compatible shape")
+            elif err not in ("KeyError", "RuntimeError"):
+                fails.append(f"run aborted at iteration {k} with unexpected {err}")
+            return fails, False
+        S, flag = calls[k - 1]
+        S = [(key, v) for key, v, _, _ in S]
+        if flag != (k <= nb):
+            fails.append(f"iteration {k}: burn_in flag {flag}, memory-less phase is k<={nb}")
+        if k <= nb + 1:
+            if S != [(key, list(map(float, v))) for key, v in s]:
+                fails.append(f"iteration {k} (memory-less, nb={nb}): statistics used differ from the current ones")
+        else:
+            if [key for key, _ in S] != [key for key, _ in prev]:
+                fails.append(f"iteration {k}: keys {[key for key, _ in S]} are not the kept keys {[key for key, _ in prev]}")
+                return fails, False
+            e = float(k - nb) ** (-power)
+            snew = dict(s)
+            for (key, v), (_, pv) in zip(S, prev):
+                if key not in snew:
+                    fails.append(f"iteration {k}: kept key '{key}' is absent from the new statistics but the update went through (value {v})")
+                    break
+                if len(pv) != len(snew[key]) and 1 not in (len(pv), len(snew[key])):
+                    fails.append(f"iteration {k}: key '{key}' kept length {len(pv)} vs new length {len(snew[key])} cannot be combined entry-wise but the update went through")
+                    break
+                want = np.asarray(pv, dtype=np.float64) * (1 - e) + e * np.asarray(snew[key], dtype=np.float64)
+                got = np.asarray(v, dtype=np.float64)
+                if got.shape != want.shape or not np.all(np.abs(got - want) <= tol * (np.abs(want) + np.abs(np.asarray(pv, dtype=np.float64)).max(initial=0) + np.abs(np.asarray(snew[key], dtype=np.float64)).max(initial=0)) + 1e-300):
+                    fails.append(f"iteration {k} (nb={nb}, power={power}): key '{key}' is not (1-e)*kept['{key}'] + e*new['{key}'] entry-wise: {v} vs {want.tolist()}")
+                    break
+        prev = S
+    if err != "none":
+        fails.append(f"all {n} maximisations done but the run raised {err}")
+    return fails, False
+
+
+def gen_value(rng, torch, dtype):
+    r = rng.random()
+    x = rng.gauss(0, 1) * rng.choice([1, 1, 1, 100.0, 1e-3]) if r < 0.8 else float(rng.randrange(-8, 9))
+    if dtype == "f32":
+        x = float(torch.tensor(x, dtype=torch.float32))
+    return x
+
+
+def gen_dict_seq(rng, torch, n, dtype, mutate):
+    keys = rng.sample(["a", "b", "c"], rng.randrange(1, 4))
+    lens = {k: rng.choice([1, 1, 2, 3, 4]) for k in keys}
+    seq = []
+    for _ in range(n):
+        ks, ls = list(keys), dict(lens)
+        if mutate and rng.random() < 0.35:
+            m = rng.choice(["drop", "add", "reorder", "len1", "lenplus", "len0", "swapvals"])
+            if m == "drop" and ks:
+                ks.remove(rng.choice(ks))
+            elif m == "add":
+                ks.insert(rng.randrange(0, len(ks) + 1), "z")
+                ls["z"] = rng.choice([1, 2])
+            elif m == "reorder":
+                rng.shuffle(ks)
+            elif m == "len1" and ks:
+                ls[rng.choice(ks)] = 1
+            elif m == "lenplus" and ks:
+                k = rng.choice(ks)
+                ls[k] = ls[k] + 1
+            elif m == "len0" and ks:
+                ls[rng.choice(ks)] = 0
+        seq.append([(k, [gen_value(rng, torch, dtype) for _ in range(ls[k])]) for k in ks])
+    return seq
+
+
+def dict_cases(chk, env):
+    torch = env[0]
+    rng = chk.rng
+    cases = []
+    # exhaustive: which keys each of 3 iterations has (subsets of {a,b}), every nb in -1..2 — missing / extra / stale keys
+    subsets = [[], ["a"], ["b"], ["a", "b"], ["b", "a"]]
+    for nb in (-1, 0, 1, 2):
+        for combo in itertools.product(subsets, repeat=3):
+            dtype = "f64"
+            seq = [[(k, [gen_value(rng, torch, dtype)]) for k in ks] for ks in combo]
+            cases.append((nb, 0.8, dtype, seq))
+    # exhaustive: lengths of the single key over 3 iterations — entry-wise / broadcasting / shape errors
+    for nb in (0, 1):
+        for combo in itertools.product([0, 1, 2, 3], repeat=3):
+            dtype = rng.choice(["f32", "f64"])
+            seq = [[("a", [gen_value(rng, torch, dtype) for _ in range(L)])] for L in combo]
+            cases.append((nb, rng.choice([0.51, 0.8, 1.0]), dtype, seq))
+    # random runs: consistent dictionaries (the real situation) in both dtypes, and mutated ones
+    for i in range(400 if chk.tier == "thorough" else 90):
+        n = rng.randrange(1, 40 if i % 3 == 0 else 10)
+        dtype = rng.choice(["f32", "f32", "f64"])
+        nb = rng.choice([rng.randrange(0, n + 1), rng.randrange(0, n + 1), rng.randrange(-2, n + 3)])
+        cases.append((nb, rng.choice([0.51, 0.6, 0.75, 0.8, 0.9, 1.0]), dtype, gen_dict_seq(rng, torch, n, dtype, mutate=(i % 2 == 1))))
+    return cases
+
+
+def dict_check(chk, env, cases):
+    keep, lines = [], []
+    for nb, power, dtype, seq in cases:
+        cj = dict_case_json(nb, power, dtype, seq)
+        res = run_dict(env, nb, power, dtype, seq)
+        key = ("dict", nb, power, dtype, fmt_dict(seq[0]) if seq else "", len(seq))
+        assigned = False
+        if nb < 0:
+            # fix of F27: the constructor must refuse; the run is then exercised with the count assigned after construction
+            if res["ctor"] != "err:algo":
+                chk.impl_failure(cj, f"negative memory-less length {nb} not refused with an algorithm-input error ({res['ctor']}) — F27 reproduces again")
+            res = run_dict(env, nb, power, dtype, seq, assign=True)
+            assigned = True
+            cj = dict(cj, count_assigned_after_construction=True)
+        if res["ctor"] != "ok":
+            chk.impl_failure(cj, f"valid configuration refused: {res['ctor']}")
+            chk.case(key, nontrivial=False, tags={"kind": "dict", "dict_run": "refused"})
+            continue
+        try:
+            fails, expected_abort = dict_predicate(nb, power, dtype, seq, res)
+        except Exception as e:  # noqa  (never let the reference computation hide a violation)
+            fails, expected_abort = [f"the key-wise / entry-wise predicate cannot be evaluated on what the run handed over: {type(e).__name__}: {e}"], False
+        for f in fails[:2]:
+            chk.impl_failure(cj, f)
+        keep.append((cj, res))
+        lines.append(dict_line(nb, power, dtype, seq))
+        chk.case(key, nontrivial=(res["err"] != "none" or nb + 2 <= len(seq)),
+                 sample=cj if (len(chk.samples) < 6 and res["err"] == "KeyError" and len(seq) == 3) else None,
+                 tags={"kind": "dict", "dict_run": res["err"] + (" (negative count assigned)" if assigned else ""), "dtype": dtype})
+    out = chk.model(lines)
+    for (cj, res), resp in zip(keep, out):
+        impl = dict_impl_string(res)
+        if impl != resp:
+            chk.disagree(cj, impl, resp, f"dictionary run (keys, order, values bitwise {cj['dtype']}, flags, exception)")
+
+
+def f27_probe(chk, env):
+    """Witness of the (fixed) finding F27 on every run: it must be refused."""
+    for kw, c in ((dict(n_burn_in_iter_frac=-0.55), (10, None, -0.55, 0.8)), (dict(n_burn_in_iter=-3, n_burn_in_iter_frac=None), (10, -3, None, 0.8))):
+        out = ctor_outcome(env, *c)
+        if out[0] != "err:algo":
+            chk.impl_failure(ctor_case_json(c), f"F27 reproduces again: n_iter=10 with {kw} is not refused with an algorithm-input error "
+                                                f"({out[0]}, n_burn_in_iter={out[1]})")
+
+
 def run(chk: core.Check):
     env = _imports()
     chk.rule = ("stub: real algorithm object driven over every (n_iter<=N, explicit count 0..n+1) and (n_iter, fraction in a "
                 "12-value grid) plus random configurations, float64 statistics compared bitwise with the Lean model; "
-                "real fits: recorded s_k/S_k of short fits. A case is non-trivial when it contains at least one iteration with "
-                "memory (nb+2 <= n_iter) or is a refused configuration; distinct by full configuration.")
+                "ctor: real constructor on every (n_iter in -3..N, fraction k/20 for k=-6..26 and 20 special doubles incl. nan/inf/"
+                "subnormal), a full (count x fraction x power) table and random (n_iter up to 1e7, 53-bit fractions): length, "
+                "FutureWarning and exception class compared exactly with Model/Saem.lean ctorZ; weights: unit-vector statistics "
+                "through the real algorithm object for every (n<=N, nb<=n, 3 powers), rows compared bitwise with Saem.weight; "
+                "dict: every assignment of key sets (subsets of {a,b}, both orders) to 3 iterations x nb in -1..2, every assignment "
+                "of tensor lengths 0..3 to 3 iterations, random consistent and mutated dictionaries in float32 and float64, "
+                "compared bitwise (values, key order, flags, exception) with Saem.runD; "
+                "real fits: recorded s_k/S_k of short fits, every entry of every key bitwise (float32) against Saem.runD. "
+                "A case is non-trivial when it contains at least one iteration with "
+                "memory (nb+2 <= n_iter), is a refused configuration, derives the length from a fraction, or aborts; distinct by full configuration.")
     cases = core.load_corpus(PROP)
     cases = [(c["n_iter"], c["n_burn_in_iter"], c["n_burn_in_iter_frac"], c["burn_in_step_power"], c["stats"]) for c in cases if c.get("kind") == "stub"]
     cases += stub_cases(chk)
@@ -411,6 +908,23 @@ def run(chk: core.Check):
         chk.case(("reconf", n, N, how, c0[2], c0[3]), nontrivial=(N + 2 <= n), tags={"kind": "stub-reconfigured", "how": how})
     compare_with_model(chk, recases, reresults)
     ctor_grid(chk, env)
+    # the whole accepted domain of the constructor (signed, special fractions, both given, order of the refusals)
+    ctor_check(chk, env, ctor_cases(chk))
+    # unrolled weights through the real algorithm object
+    weights_check(chk, env)
+    # dictionaries of tensors: keys, order, shapes, dtype, exceptions
+    dict_check(chk, env, dict_cases(chk, env))
+    f27_probe(chk, env)
+    chk.extra_cov["observations"] = [
+        "silent broadcasting: a kept tensor of length 1 takes the length of the new statistics and a new tensor of length 1 is repeated "
+        "over the kept entries, no error (Lean: convexT_broadcast_old/new; exhaustive length grid) — unreachable with leaspy's own models, "
+        "whose statistics keep their shapes",
+        "a key that only the new statistics have is dropped silently from the first averaged iteration on; a kept key missing from the new "
+        "statistics is a raw KeyError (Lean: mstepD_keys, mstepD_error_iff) — unreachable with leaspy's own models (fixed key set)",
+        "int(frac * n_iter) uses the double product: fraction 0.29 of 100 iterations is 28, 0.57 -> 56, 0.58 -> 57 (Lean example on the exact value of the double)",
+        "a non-integer explicit count (n_burn_in_iter=2.5) is accepted: no reset iteration exists and the first averaged step is 0.5**-power > 1 "
+        "(weights outside [0,1]); outside the modelled domain (integer counts)",
+    ]
     # real fits
     fits = [("logistic", 8, None, 0.5, 0.8, 0), ("linear", 7, 2, None, 1.0, 1), ("logistic_scalar", 9, None, 0.29, 0.51, 2)]
     if chk.tier == "thorough":
@@ -435,6 +949,26 @@ def replay(chk: core.Check, payload):
     if case.get("kind") == "fit":
         real_fit_case(env, chk, case["model"], case["n_iter"], case["n_burn_in_iter"], case["n_burn_in_iter_frac"],
                       case["burn_in_step_power"], case["seed"])
+        return
+    if case.get("kind") == "ctorx":
+        c = (case["n_iter"], case["n_burn_in_iter"], _unrepr(case["n_burn_in_iter_frac"]), _unrepr(case["burn_in_step_power"]))
+        cs = [c]
+        if "compare_with_fraction" in case:
+            cs.append((c[0], c[1], case["compare_with_fraction"], c[3]))
+        ctor_check(chk, env, cs)
+        return
+    if case.get("kind") == "weights":
+        r = weights_case(chk, env, case["n_iter"], case["n_burn_in_iter"], case["burn_in_step_power"])
+        chk.case(("weights", case["n_iter"], case["n_burn_in_iter"]), sample=case)
+        if r is not None:
+            resp = chk.model([f"weights nb={case['n_burn_in_iter']} power={fmt_float(case['burn_in_step_power'])} n={case['n_iter']}"])[0]
+            impl = ";".join(fmt_list([fmt_float(x) for x in row]) for row in r[1])
+            if impl != resp:
+                chk.disagree(case, impl, resp, "unrolled weights")
+        return
+    if case.get("kind") == "dict":
+        seq = [[(k, v) for k, v in d] for d in case["stats"]]
+        dict_check(chk, env, [(case["n_burn_in_iter"], case["burn_in_step_power"], case["dtype"], seq)])
         return
     if case.get("kind") == "ctor":
         torch, AlgorithmSettings, algorithm_factory, LAIE = env
